@@ -353,3 +353,126 @@ T("C03-t-local-lambda", "C03", LOC, '''        def fun(x):
             return self._sign * self._problem.evaluate(x)
 ''', '''        fun = lambda x: self._sign * self._problem.evaluate(x)  # noqa: E731
 ''', "objective as a lambda")
+
+# ----------------------------------------------------------------------------- C11
+M("C11-pinned-ea", "C11", EA, '''        parents = self.current_population
+        while epoch_counter < self._generations:
+            offspring = self._ea.run(parents, mutation_std=self._get_mutation_std())
+            parents = offspring
+''', '''        while epoch_counter < self._generations:
+            offspring = self._ea.run(self.current_population, mutation_std=self._get_mutation_std())
+''', ["R11.1"], "pinned defect (EA)")
+M("C11-pinned-de", "C11", DE, '''        parents = self.current_population
+        while epoch_counter < self._generations:
+            offspring = self._de.run(parents)
+            parents = offspring
+''', '''        while epoch_counter < self._generations:
+            offspring = self._de.run(self.current_population)
+''', ["R11.1"], "pinned defect (DE)")
+M("C11-pinned-shade", "C11", SH, '''        parents = self.current_population
+        while epoch_counter < self._generations:
+            offspring = self._shade.run(parents)
+            parents = offspring
+''', '''        while epoch_counter < self._generations:
+            offspring = self._shade.run(self.current_population)
+''', ["R11.1"], "pinned defect (SHADE)")
+M("C11-ea-no-update", "C11", EA, "            parents = offspring\n", "", ["R11.1"], "parents local never updated")
+M("C11-de-conditional-update", "C11", DE, "            parents = offspring\n", "            if epoch_counter % 2 == 0:\n                parents = offspring\n", ["R11.1"], "parents updated every other generation only")
+M("C11-cma-stale-values", "C11", CMA, "            values = [sign * ind.fitness for ind in offspring]\n", "", ["R11.1"], "CMA told the first generation's values every time")
+M("C11-cma-stale-genomes", "C11", CMA, "            genomes = [ind.genome for ind in offspring]\n", "", ["R11.1"], "CMA told the first generation's genomes every time")
+M("C11-shade-entry-first-pop", "C11", SH, "        parents = self.current_population\n", "        parents = self.history[0]\n", ["R11.2"], "every metaepoch restarts from the initial population")
+M("C11-ea-record-parents", "C11", EA, '''            parents = offspring
+            epoch_counter += 1
+            metaepoch_generations.append(offspring)
+''', '''            metaepoch_generations.append(parents)
+            parents = offspring
+            epoch_counter += 1
+''', ["R11.3"], "the generation recorded lags one behind")
+T("C11-t-rename", "C11", DE, '''        parents = self.current_population
+        while epoch_counter < self._generations:
+            offspring = self._de.run(parents)
+            parents = offspring
+''', '''        current = self.current_population
+        while epoch_counter < self._generations:
+            offspring = self._de.run(current)
+            current = list(offspring)
+''', "renamed local, list() copy")
+T("C11-t-single-name", "C11", SH, '''        parents = self.current_population
+        while epoch_counter < self._generations:
+            offspring = self._shade.run(parents)
+            parents = offspring
+
+            epoch_counter += 1
+            metaepoch_generations.append(offspring)
+''', '''        population = self.current_population
+        while epoch_counter < self._generations:
+            population = self._shade.run(population)
+
+            epoch_counter += 1
+            metaepoch_generations.append(population)
+''', "one name threaded through the loop")
+
+# ----------------------------------------------------------------------------- C18
+_HIB_LOOP = '''        deme_seeds = self._sprout_mechanism.get_seeds(self)
+        # Demes created by this round did not take part in it: they start awake.
+        demes_in_round = list(reversed(self.active_non_leaves))
+        self._do_sprout(deme_seeds)
+
+        if "hibernation" in self.config.options and self.config.options["hibernation"]:
+            for _, deme in demes_in_round:
+'''
+M("C18-pinned", "C18", TREE, _HIB_LOOP, '''        deme_seeds = self._sprout_mechanism.get_seeds(self)
+        self._do_sprout(deme_seeds)
+
+        if "hibernation" in self.config.options and self.config.options["hibernation"]:
+            for _, deme in reversed(self.active_non_leaves):
+''', ["R18.4"], "pinned defect: flags recomputed over demes created by the round")
+M("C18-snapshot-after", "C18", TREE, '''        demes_in_round = list(reversed(self.active_non_leaves))
+        self._do_sprout(deme_seeds)
+''', '''        self._do_sprout(deme_seeds)
+        demes_in_round = list(reversed(self.active_non_leaves))
+''', ["R18.4"], "snapshot taken after sprouting")
+M("C18-skip-unconditional", "C18", TREE, '''            if "hibernation" in self.config.options and self.config.options["hibernation"] and deme._hibernating:
+                continue
+''', '''            if deme._hibernating:
+                continue
+''', ["R18.1"], "skip does not depend on the option")
+M("C18-skip-removed", "C18", TREE, '''            if "hibernation" in self.config.options and self.config.options["hibernation"] and deme._hibernating:
+                continue
+
+''', "", ["R18.1"], "hibernating demes are stepped")
+M("C18-skip-or", "C18", TREE, '''            if "hibernation" in self.config.options and self.config.options["hibernation"] and deme._hibernating:
+                continue
+''', '''            if "hibernation" in self.config.options and (self.config.options["hibernation"] or deme._hibernating):
+                continue
+''', ["R18.1"], "and -> or in the skip condition")
+M("C18-flags-without-option", "C18", TREE, '''        if "hibernation" in self.config.options and self.config.options["hibernation"]:
+            for _, deme in demes_in_round:''', '''        if "hibernation" in self.config.options:
+            for _, deme in demes_in_round:''', ["R18.2"], "flags written when the option is present but False")
+M("C18-polarity-swapped", "C18", TREE, "                if deme in deme_seeds:\n                    if deme._hibernating:", "                if deme not in deme_seeds:\n                    if deme._hibernating:", ["R18.3"], "sprouting demes fall asleep, idle ones wake up")
+M("C18-leaves-included", "C18", TREE, "        demes_in_round = list(reversed(self.active_non_leaves))\n", "        demes_in_round = list(reversed(self.active_demes))\n", ["R18.3"], "leaf demes are put to sleep")
+M("C18-flag-elsewhere", "C18", "pyhms/stop_conditions/lsc.py", '''        if not deme.children:
+            return False
+''', '''        if not deme.children:
+            deme._hibernating = deme.metaepoch_count > 10
+            return False
+''', ["R18.2"], "a stop condition puts demes to sleep")
+M("C18-seeds-refiltered", "C18", TREE, "        self._do_sprout(deme_seeds)\n\n        if \"hibernation\"", "        self._do_sprout(deme_seeds)\n        deme_seeds = {d: c for d, c in deme_seeds.items() if d.level == 0}\n\n        if \"hibernation\"", ["R18.3"], "membership tested against a different mapping than the one sprouted")
+T("C18-t-option-local", "C18", TREE, '''        if "hibernation" in self.config.options and self.config.options["hibernation"]:
+            for _, deme in demes_in_round:''', '''        hibernation_on = "hibernation" in self.config.options and self.config.options["hibernation"]
+        if hibernation_on:
+            for _, deme in demes_in_round:''', "option test through a local")
+T("C18-t-get", "C18", TREE, '''            if "hibernation" in self.config.options and self.config.options["hibernation"] and deme._hibernating:
+                continue
+''', '''            if self.config.options.get("hibernation") and deme._hibernating:
+                continue
+''', "options.get form")
+T("C18-t-nested-skip", "C18", TREE, '''            if "hibernation" in self.config.options and self.config.options["hibernation"] and deme._hibernating:
+                continue
+
+            deme.run_metaepoch(self)
+''', '''            if "hibernation" in self.config.options and self.config.options["hibernation"]:
+                if deme._hibernating:
+                    continue
+            deme.run_metaepoch(self)
+''', "nested ifs")
